@@ -3,6 +3,7 @@
 package engines
 
 import (
+	"time"
 	"context"
 	"fmt"
 	"net"
@@ -370,6 +371,41 @@ func propC18(r *kernel.Run) {
 	}
 	if steps >= 3000 {
 		r.HarnessErr("mux run did not quiesce in 3000 steps: %v", r.Sched.ParkedAt())
+	}
+	// a quiet period (seconds to minutes on the fake clock) and then more traffic: connections ingressed late are
+	// subject to the same rules as the early ones
+	if tp.Draw(3) == 0 {
+		r.Sleep(time.Duration(tp.Range(6, 600)) * time.Second)
+		r.Sched.Settle()
+		nlate := tp.Range(1, 3)
+		for i := 0; i < nlate; i++ {
+			c := newConn()
+			name := fmt.Sprintf("lateingress%d", i)
+			r.Sched.Go(name, "ingress", func() {
+				guard(name, func() {
+					l.IngressConn(c, nil)
+					conns[c].ingressed = true
+				})
+			})
+		}
+		if tp.Draw(2) == 0 {
+			r.Sched.Go("lateaccept0", "accept", acceptOp("lateaccept0"))
+		}
+		if tp.Draw(2) == 0 {
+			r.Sched.Go("lateclose0", "close", func() {
+				closeStarted++
+				guard("lateclose0", func() {
+					l.Close()
+					closeDone++
+				})
+			})
+		}
+		r.Count("ops.traffic_after_a_quiet_period", 1)
+		for steps < 6000 && r.Sched.Step() {
+			steps++
+			r.Sched.Settle()
+			checkStep()
+		}
 	}
 	// late accepts: started after a Close has completed
 	if closeDone > 0 {
